@@ -70,6 +70,8 @@ class Block:
                 n += l[3].size() + l[4].size()
             if l[0] == "bindfun":
                 n += l[4].size()
+            if l[0] == "bindwhile":
+                n += l[4].size() + l[6].size()
         if self.final[0] == "if":
             n += self.final[2].size() + self.final[3].size()
         return n
@@ -93,6 +95,13 @@ class Block:
                 out.append("%slet %s ← %s (%s do" % (p, l[1], l[2], l[3]))
                 out += l[4].render(ind + 4)
                 out[-1] += ")" + ((" " + l[5]) if l[5] else "")
+            elif l[0] == "bindwhile":
+                # let pat ← pyWhile fuel init (lamC do cond) (lamB do body)
+                out.append("%slet %s ← pyWhile fuel %s (%s do" % (p, l[1], l[2], l[3]))
+                out += l[4].render(ind + 4)
+                out[-1] += ") (%s do" % l[5]
+                out += l[6].render(ind + 4)
+                out[-1] += ")"
             else:  # pragma: no cover
                 raise AssertionError(l)
         f = self.final
@@ -116,6 +125,7 @@ class FnInfo:
         self.ret = None
         self.text = None
         self.where = None
+        self.fuel = False       # the definition takes a loop bound `fuel : Nat` (it contains a `while`, or calls such a function)
 
 
 class Translator:
@@ -208,7 +218,7 @@ class Translator:
             self.active.discard(key)
 
     # ---- instantiation of a function object (closure cells supplied) -> Lean term ------------------------------
-    def inst(self, func, param_sorts=None, ret_force=None, want_ret=None):
+    def inst(self, func, param_sorts=None, ret_force=None, want_ret=None, fuel="fuel"):
         info = self.function(func, param_sorts, ret_force)
         if want_ret is not None and info.ret != want_ret:
             raise Refuse("%s returns sort %s where %s is needed" % (info.lean, info.ret, want_ret))
@@ -243,6 +253,8 @@ class Translator:
                     args.append("(some %s)" % self.inst(v, argsorts, None, rsort)[0])
             else:  # pragma: no cover
                 raise Refuse("closure variable kind " + kind)
+        if info.fuel:
+            args = [fuel] + args
         t = info.lean if not args else "(%s %s)" % (info.lean, " ".join(args))
         return t, info
 
@@ -256,6 +268,7 @@ class FnTr:
         self.rets = []
         self.cells = {}      # pyname -> [leanname, kind, leantype, argsorts]
         self.loop_depth = 0
+        self.uses_fuel = False
         self.escaped = set()
         self.freevals = dict(zip(func.__code__.co_freevars, [c.cell_contents for c in (func.__closure__ or ())]))
         self.pynames = set(func.__code__.co_varnames) | set(func.__code__.co_freevars) | set(func.__code__.co_names)
@@ -646,6 +659,8 @@ class FnTr:
                 term, info = self.T.inst(obj, sorts)
             except Refuse as e:
                 raise Refuse("calls %s, which is not translated: %s" % (obj.__name__, e))
+            if info.fuel:
+                self.uses_fuel = True
             x = self.fresh()
             out.append(("bind", x, "%s rec %s" % (term, " ".join(self.toV(a) if a[0] == "N" else a[1] for a in args))))
             return (info.ret, x)
@@ -783,6 +798,59 @@ class FnTr:
                 for a, nm in zip(carried, names):
                     env[a] = (env[a][0], nm)
                 continue
+            if isinstance(s, ast.While):
+                # `while c: body` — a loop over the loop-carried variables, bounded by the definition's `fuel` parameter
+                # (Python's loop may not terminate; running out of fuel is the model-bound error `.fuel`)
+                if s.orelse:
+                    self.refuse(s, "while … else")
+                for x in ast.walk(s):
+                    if isinstance(x, (ast.Break, ast.Continue, ast.Return)):
+                        self.refuse(x, "%s inside a loop" % type(x).__name__.lower())
+                asg = self.assigned(s.body)
+                carried = [a for a in asg if a in env]
+                later = {x.id for r in rest for x in ast.walk(r) if isinstance(x, ast.Name)}
+                for a in asg:
+                    if a not in env and a in later:
+                        self.refuse(s, "variable %s of a loop body is used after the loop" % a)
+                if not carried or len(carried) > 2:
+                    self.refuse(s, "loop with %d loop-carried variables" % len(carried))
+                for a in carried:
+                    if env[a][0] == "L" and a in self.escaped:
+                        self.refuse(s, "a list that may be shared is changed in a loop")
+                env2 = dict(env)
+                for a in carried:
+                    env2[a] = (env[a][0], self.lname(a))
+
+                def kend(e2, carried=carried, env=env, s=s):
+                    for a in carried:
+                        if e2[a][0] != env[a][0]:
+                            self.refuse(s, "loop-carried variable %s changes sort" % a)
+                    ts = [e2[a][1] for a in carried]
+                    return Block([], ("expr", "pure " + (ts[0] if len(ts) == 1 else "(" + ", ".join(ts) + ")")))
+                self.loop_depth += 1
+                try:
+                    cl = []
+                    c = self.bool(s.test, env2, cl)
+                    cond = Block(cl, ("expr", "pure " + c))
+                    body = self.stmts(s.body, env2, kend)
+                finally:
+                    self.loop_depth -= 1
+                names = [self.lname(a) for a in carried]
+                inits = [env[a][1] for a in carried]
+                ty = " × ".join(SORT_LEAN[env[a][0]] for a in carried)
+                if len(carried) == 1:
+                    lam = "fun (%s : %s) =>" % (names[0], ty)
+                    pat, init = names[0], inits[0]
+                else:
+                    lam = "fun (st : %s) =>" % ty
+                    pat, init = "(%s)" % ", ".join(names), "(%s)" % ", ".join(inits)
+                    cond.lines.insert(0, ("let", pat, "st"))
+                    body.lines.insert(0, ("let", pat, "st"))
+                lines.append(("bindwhile", pat, init, lam, cond, lam, body))
+                self.uses_fuel = True
+                for a, nm in zip(carried, names):
+                    env[a] = (env[a][0], nm)
+                continue
             if isinstance(s, ast.Expr) and isinstance(s.value, ast.Call) and isinstance(s.value.func, ast.Attribute) \
                     and s.value.func.attr == "append" and isinstance(s.value.func.value, ast.Name) and len(s.value.args) == 1 \
                     and not s.value.keywords:
@@ -860,6 +928,9 @@ class FnTr:
             info.cells.append((py, c[0], c[1], c[2] if c[1] in ("F", "OF") else {"S": "String", "B": "Bool"}[c[1]], c[3], c[4]))
         info.cells.sort(key=lambda c: list(code.co_freevars).index(c[0]))
         sig = "".join(" (%s : %s)" % (c[1], c[3] if c[2] == "F" else ("Option (%s)" % c[3] if c[2] == "OF" else c[3])) for c in info.cells)
+        info.fuel = self.uses_fuel
+        if info.fuel:
+            sig = " (fuel : Nat)" + sig
         sig += " (rec : Disp)"
         sig += "".join(" (%s : %s)" % (ln, SORT_LEAN[s]) for _, ln, s in info.params)
         if info.vararg:
@@ -923,7 +994,7 @@ def gen_bodies():
             if f.__name__ == "<lambda>":
                 tn = "_".join(Ty.get_type_as_string(t) for t in h.sig.args)
                 T.lambda_names.setdefault(f.__code__, "lambda_%s_%s" % (OPNAMES.get(name, name if name.isalnum() else "op"), tn))
-            term, info = T.inst(f, None, None)
+            term, info = T.inst(f, None, None, fuel="pyLoopFuel")
             if info.ret not in ("V", "N"):
                 raise Refuse("returns a Python value of sort %s" % info.ret)
             if info.vararg is not None:
